@@ -135,19 +135,17 @@ func runPool(sc poolScenario) (string, string) {
 	}
 	// let the pools settle: every lost connection must have been replaced
 	final := -1
-	settleDL := time.Now().Add(watchdogFull) // an event (every pool full, no filler) is waited for, not a duration
-	for time.Now().Before(settleDL) {
+	// an event (every pool full, no filler) is waited for, not a duration
+	if patient(watchdogFull, func() bool {
 		ok := true
 		for _, st := range gocql.VerifPoolState(s) {
 			if st[0] != sc.size || st[3] != 0 {
 				ok = false
 			}
 		}
-		if ok && len(gocql.VerifPoolState(s)) == sc.hosts {
-			final = sc.size
-			break
-		}
-		time.Sleep(2 * time.Millisecond)
+		return ok && len(gocql.VerifPoolState(s)) == sc.hosts
+	}) {
+		final = sc.size
 	}
 	if final < 0 {
 		final = 0
@@ -164,26 +162,20 @@ func runPool(sc poolScenario) (string, string) {
 	twg.Wait()
 	cdone := make(chan struct{})
 	go func() { s.Close(); close(cdone) }()
-	select {
-	case <-cdone:
-	case <-time.After(15 * time.Second):
+	if !closedWithin(cdone, watchdogFull) {
 		return "fatal:Session.Close hangs " + stacks(), "fatal"
 	}
 	// slow dials still in flight finish and must close their connection: polled (the slowest scripted dial takes
 	// 230 ms), the watchdog only ends the wait when something stays open
 	after := 0
-	afterDL := time.Now().Add(watchdogFull)
 	time.Sleep(250 * time.Millisecond)
-	for {
+	patient(watchdogFull, func() bool {
 		after = 0
 		for _, n := range cl.Nodes {
 			after += openSockets(n)
 		}
-		if after == 0 || time.Now().After(afterDL) {
-			break
-		}
-		time.Sleep(2 * time.Millisecond)
-	}
+		return after == 0
+	})
 	close(stop)
 	mwg.Wait()
 	return fmt.Sprintf("poolobs size=%d maxconns=%d maxopen=%d final=%d afterclose=%d", sc.size,
@@ -250,11 +242,9 @@ func runClose(closers int, inflight int, r *vh.Rng) string {
 	done := make(chan struct{})
 	go func() { cwg.Wait(); qwg.Wait(); close(done) }()
 	returned := 1
-	select {
-	case <-done:
-	case <-time.After(15 * time.Second):
+	if !closedWithin(done, watchdogFull) {
 		returned = 0
-		os.WriteFile("/tmp/c17_hang.txt", []byte(stacks()), 0o644)
+		os.WriteFile(dumpPath("hang", "sessclose"), []byte(stacks()), 0o644)
 	}
 	again := 0
 	adone := make(chan struct{})
@@ -262,10 +252,8 @@ func runClose(closers int, inflight int, r *vh.Rng) string {
 		defer func() { recover(); close(adone) }()
 		s.Close()
 	}()
-	select {
-	case <-adone:
+	if closedWithin(adone, watchdogFull) {
 		again = 1
-	case <-time.After(5 * time.Second):
 	}
 	qe := "other"
 	if err := s.Query("PING after").Exec(); err == gocql.ErrSessionClosed {
@@ -311,9 +299,7 @@ func closeRace(rounds int) string {
 		}
 		done := make(chan struct{})
 		go func() { cwg.Wait(); close(done) }()
-		select {
-		case <-done:
-		case <-time.After(10 * time.Second):
+		if !closedWithin(done, watchdogFull) {
 			atomic.AddInt64(&notReturned, 1)
 		}
 	}
@@ -538,9 +524,12 @@ func main() {
 	// leaves a goroutine parked on a listener nobody serves any more (refreshNow after stop), and thousands of
 	// parked goroutines make every goroutine profile of the pipeline monitors slow.
 	rounds := 3000 * mult
-	h := gocql.VerifRefreshDebouncerRace(rounds, 300*time.Millisecond)
+	// stop() must return: waited for with the patient watchdog (a frozen process cannot expire it); a tree in which
+	// it hangs is reported after 3 hung rounds
+	stopReturned := func(done <-chan struct{}) bool { return closedWithin(done, watchdogFull) }
+	h := gocql.VerifRefreshDebouncerRaceW(rounds, 3, stopReturned)
 	out.Case(fmt.Sprintf("debrace refresh rounds=%d hung=%d", rounds, h), "accept", "debrace/refresh", true)
-	h = gocql.VerifEventDebouncerRace(rounds, 300*time.Millisecond)
+	h = gocql.VerifEventDebouncerRaceW(rounds, 3, stopReturned)
 	out.Case(fmt.Sprintf("debrace event rounds=%d hung=%d", rounds, h), "accept", "debrace/event", true)
 	lap("debrace")
 	// 5. model-only sanity lines (documented examples of the machine)
